@@ -61,6 +61,16 @@ def templates():
     T['if_header'] = "if q(0):\n    pass\nelif q(1):\n    L('b')\nelse:\n    pass\n"
     T['if_boolop'] = "if q(0) or q(1) and q(2):\n    L('t')\n"
     T['while_header'] = "i=[0]\nwhile q(len(i))<3:\n    i.append(0)\n"
+    T['while_break'] = "i=[0]\nwhile q(len(i))<9:\n    i.append(0)\n    if len(i) == 3:\n        break\n"
+    T['while_return'] = "def f():\n    i=[0]\n    while q(len(i))<9:\n        i.append(0)\n        if len(i) == 3:\n            return q(7)\nL('r', f())\n"
+    T['while_else_break'] = "i=[0]\nwhile q(len(i))<3:\n    i.append(0)\n    for z in p(5):\n        break\nelse:\n    L('else')\n"
+    T['for_break_iter'] = "for z in p(1):\n    L('body',repr(z))\n    if repr(z) == 'V2':\n        break\nelse:\n    L('else')\n"
+    T['name_obj_sub'] = "xo = p(1)\nxo[q(2)] = q(3)\n"
+    T['name_obj_slice'] = "xo = p(1)\nxo[q(2):q(3)] = q(4)\n"
+    T['name_obj_attr'] = "xo = p(1)\nxo.a = q(3)\n"
+    T['name_obj_aug_sub'] = "xo = p(1)\nxo[q(2)] += q(3)\n"
+    T['dict_name_sub'] = "d = {}\nd[q(1)] = q(2)\nd[q(3)], d[q(4)] = q(5), q(6)\nL('d', sorted(d.items()))\n"
+    T['def_deco_defaults_order'] = "@d(1)\ndef f(a=q(2), *, b=q(3)):\n    pass\n@d(4)\n@d(5)\ndef g(c=q(6)):\n    pass\n"
     T['for_header'] = "for z in p(1):\n    L('body',repr(z))\n"
     T['for_target_sub'] = "for p(1)[q(2)] in [1,2]:\n    pass\n"
     T['for_target_attr'] = "for p(1).a in [1,2]:\n    L('body')\n"
